@@ -75,3 +75,10 @@ Proof. vm_compute. reflexivity. Qed.
 Example bfs_total_hypotheses :
   on_graph ex_dg (fun g => step_total_b Z.eqb g && memb Z.eqb 2 (g_nodes g)) false = true.
 Proof. vm_compute. reflexivity. Qed.
+
+(* C10_scc: the hypotheses hold for ord = identity / reversal on the example digraph *)
+Example scc_hypotheses :
+  on_graph ex_dg (fun g => wstep_ok_b Z.eqb g && is_ok (strongly_connected_components Z.eqb (@rev Z) g)) false = true.
+Proof. vm_compute. reflexivity. Qed.
+Example rev_permutes : forall (l : list Z) x, In x (rev l) <-> In x l.
+Proof. intros l x. symmetry. apply in_rev. Qed.
